@@ -534,6 +534,8 @@ def run(ctx):
     for part in pmap(worker, jobs, ctx.nproc): ctx.merge(part)
     # another PROCESS protects a token key (SENSITIVE / not EXTRACTABLE / WRAP_WITH_TRUSTED) that this process has already read and wrapped (both back-ends): value and wrapping are refused here too
     for be in ('file', 'db'): ctx.extra.setdefault('two_process_cells', {})[be] = twoproc.stale_view(ctx, be, 'reveal')
+    # ... and the same when the holder's reload of the key file fails on a file-system error (a process at its descriptor limit): the stale, readable copy must not be served
+    ctx.extra['two_process_fault_cells'] = twoproc.stale_view_under_faults(ctx, 'file', 'reveal')
     ctx.assumptions += ['set/copy attempts are judged by their effect only: whether a non-canonical CK_BBOOL byte is rejected or normalised is the token\'s choice; "protection removed" (flag, reveal or wrap) is the violation',
                         'the leak scan sees verbatim substrings only (an encoded leak is outside what an output scan can see)',
                         'asymmetric key material is fixed (vlib/keys_fixed2.py): readable instances are read only before the value is declared protected; symmetric values are fresh per object',
